@@ -106,7 +106,12 @@ impl<'a> Printer<'a> {
     }
 
     fn mac_args(&self, args: &[MacArg], k: &Kinds) -> String {
-        args.iter().map(|a| match a { MacArg::Ident(v) => self.names.var(*v), MacArg::Expr(e) => self.expr(e, k) }).collect::<Vec<_>>().join(", ")
+        args.iter().map(|a| match a {
+            MacArg::Ident(v) => self.names.var(*v),
+            // an expression argument that is a bare, not yet bound identifier gets bound by the macro's clause
+            MacArg::Expr(Expr::Var(v)) if *v < PARAM_BASE && !k.contains_key(v) => self.names.var(*v),
+            MacArg::Expr(e) => self.expr(e, k),
+        }).collect::<Vec<_>>().join(", ")
     }
 
     pub fn body_item(&self, b: &BodyItem, k: &mut Kinds) -> String {
@@ -156,7 +161,7 @@ impl<'a> Printer<'a> {
             BodyItem::Call { mac, args } => {
                 // identifiers passed to a macro may get bound by it: as clause variables
                 let s = format!("{}!({})", self.p.macros[*mac].name, self.mac_args(args, k));
-                for a in args { if let MacArg::Ident(v) = a { if *v < PARAM_BASE { k.entry(*v).or_insert(Kind::Ref); } } }
+                for a in args { if let MacArg::Ident(v) | MacArg::Expr(Expr::Var(v)) = a { if *v < PARAM_BASE { k.entry(*v).or_insert(Kind::Ref); } } }
                 s
             }
         }
